@@ -142,3 +142,183 @@ def pinned_reach(f, env, genv=None):
 
 
 NORETURN = {'exit', 'abort', '__assert_fail', 'os_abort', '_exit'}
+
+
+# ======================================================================================
+# flag-tuple dataflow
+
+class FlagAnalysis:
+    """forward dataflow over the set of possible tuples of a few int locals ("flags").
+    value domain per flag: 0, 1 (= any non-zero constant), 'T' (unknown).  Branches on
+    `load flag` compared with 0 (any icmp/trunc form clang -O0 emits) refine the tuples;
+    other branches split both ways.  Exact for flags only assigned constants."""
+
+    def __init__(self, f, flag_names=None, flag_ids=None, pins=None, genv=None, entry_vals=None):
+        self.f = f
+        ids = list(flag_ids or [])
+        if flag_names:
+            for i in f.all_insts():
+                if i.op == 'alloca' and (i.var in flag_names):
+                    ids.append(i.id)
+        aa = f.arg_allocas()
+        self.ids = ids
+        self.names = [f.insts[a].var or f.insts[a].name for a in ids]
+        self.idx = {a: k for k, a in enumerate(ids)}
+        self.pin_env = param_env(f, pins or {})
+        self.genv = genv or {}
+        n = len(ids)
+        init = ['T'] * n
+        for a, k in self.idx.items():
+            if a in self.pin_env:
+                init[k] = 1 if self.pin_env[a] else 0
+        if entry_vals:
+            for nm, v in entry_vals.items():
+                for a, k in self.idx.items():
+                    if (f.insts[a].var or f.insts[a].name) == nm:
+                        init[k] = v
+        self.IN = {0: {tuple(init)}}
+        self.edge_out = {}
+        self._run()
+
+    # abstract value of an operand under a tuple: 0 / 1 / 'T'
+    def aval(self, o, tup, local):
+        f = self.f
+        o = f.strip(o)
+        if o[0] == 'c':
+            return 1 if o[1] else 0
+        if o[0] == 'n':
+            return 0
+        if o[0] != 'i':
+            return 'T'
+        i = f.insts[o[1]]
+        if i.id in local:
+            return local[i.id]
+        if i.op == 'load':
+            a = f.strip(i.ops[0])
+            if a[0] == 'i' and a[1] in self.idx:
+                return tup[self.idx[a[1]]]
+            if a[0] == 'i' and a[1] in self.pin_env:
+                return 1 if self.pin_env[a[1]] else 0
+            if a[0] == 'g' and a[1] in self.genv:
+                return 1 if self.genv[a[1]] else 0
+            return 'T'
+        if i.op == 'icmp':
+            a, b = self.aval(i.ops[0], tup, local), self.aval(i.ops[1], tup, local)
+            cb = f.const_of(i.ops[1])
+            if cb == 0 and a != 'T':
+                if i.pred == 'ne' or i.pred in ('ugt', 'sgt'):
+                    return a
+                if i.pred == 'eq':
+                    return 1 - a
+                return 'T'
+            return 'T'
+        if i.op in ('xor',) and f.const_of(i.ops[1]) in (1, -1, True):
+            a = self.aval(i.ops[0], tup, local)
+            return 'T' if a == 'T' else 1 - a
+        if i.op in ('zext', 'trunc', 'sext'):
+            return self.aval(i.ops[0], tup, local)
+        if i.op == 'and':
+            a, b = self.aval(i.ops[0], tup, local), self.aval(i.ops[1], tup, local)
+            if a == 0 or b == 0:
+                return 0
+            return 'T'
+        if i.op == 'or':
+            a, b = self.aval(i.ops[0], tup, local), self.aval(i.ops[1], tup, local)
+            if a == 1 or b == 1:
+                return 1
+            if a == 0 and b == 0:
+                return 0
+            return 'T'
+        return 'T'
+
+    def transfer_block(self, b, tup, upto=None):
+        """apply the stores of block b to tuple; stop before instruction id `upto`"""
+        f = self.f
+        t = list(tup)
+        for ins in f.blocks[b]:
+            if upto is not None and ins.id == upto:
+                break
+            if ins.op == 'store':
+                a = f.strip(ins.ops[1])
+                if a[0] == 'i' and a[1] in self.idx:
+                    t[self.idx[a[1]]] = self.aval(ins.ops[0], tuple(t), {})
+        return tuple(t)
+
+    def _run(self):
+        f = self.f
+        dq = deque([0])
+        inq = {0}
+        while dq:
+            b = dq.popleft()
+            inq.discard(b)
+            outs = {}
+            stop = any(i.op == 'call' and i.callee in NORETURN for i in f.blocks[b])
+            if stop:
+                continue
+            term = f.blocks[b][-1]
+            for tup in self.IN.get(b, ()):
+                t2 = self.transfer_block(b, tup)
+                if term.op == 'br' and len(term.ops) == 3:
+                    c = self.aval(term.ops[0], t2, {})
+                    tb, fb = term.ops[2][1], term.ops[1][1]
+                    # refine the tested flag on each edge when the condition is a direct test of one flag
+                    tf = self._tested_flag(term.ops[0])
+                    for val, sb in ((1, tb), (0, fb)):
+                        if c != 'T' and c != val:
+                            continue
+                        t3 = t2
+                        if tf is not None and c == 'T':
+                            k, pos = tf
+                            want = val if pos else 1 - val
+                            if t2[k] == 'T':
+                                t3 = t2[:k] + (want,) + t2[k + 1:]
+                        outs.setdefault(sb, set()).add(t3)
+                elif term.op == 'switch':
+                    for sb in term.succ:
+                        outs.setdefault(sb, set()).add(t2)
+                else:
+                    for sb in term.succ or []:
+                        outs.setdefault(sb, set()).add(t2)
+            for sb, ts in outs.items():
+                self.edge_out[(b, sb)] = ts
+                cur = self.IN.setdefault(sb, set())
+                if not ts <= cur:
+                    cur |= ts
+                    if sb not in inq:
+                        inq.add(sb)
+                        dq.append(sb)
+
+    def _tested_flag(self, cond):
+        """if cond is (load F != 0) / (load F == 0) / trunc(load F): return (flag index, positive?)"""
+        f = self.f
+        o = f.strip(cond)
+        pos = True
+        for _ in range(4):
+            if o[0] != 'i':
+                return None
+            i = f.insts[o[1]]
+            if i.op == 'icmp' and f.const_of(i.ops[1]) == 0 and i.pred in ('ne', 'eq'):
+                if i.pred == 'eq':
+                    pos = not pos
+                o = f.strip(i.ops[0])
+            elif i.op == 'xor' and f.const_of(i.ops[1]) in (1, -1):
+                pos = not pos
+                o = f.strip(i.ops[0])
+            elif i.op == 'load':
+                a = f.strip(i.ops[0])
+                if a[0] == 'i' and a[1] in self.idx:
+                    return (self.idx[a[1]], pos)
+                return None
+            else:
+                return None
+        return None
+
+    def at(self, ins):
+        """possible tuples (as dicts name->value) just before instruction ins"""
+        res = set()
+        for tup in self.IN.get(ins.block, ()):
+            res.add(self.transfer_block(ins.block, tup, upto=ins.id))
+        return [dict(zip(self.names, t)) for t in res]
+
+    def reachable(self, ins):
+        return bool(self.IN.get(ins.block))
